@@ -171,7 +171,12 @@ EXPORT void vh_alloc_scope(int what, uint64_t n, uint64_t p1, uint64_t p2, int64
 #include <xmmintrin.h>
 EXPORT uint32_t vh_fpenv_get(void) { return _mm_getcsr() & ~0x3Fu; }   // control bits only: the sticky exception flags are not state
 EXPORT void vh_fpenv_set_control(uint32_t v) { _mm_setcsr((_mm_getcsr() & 0x3Fu) | (v & ~0x3Fu)); }
+// the six sticky exception flags raised, as left behind by whatever the caller computed before (0/0, an inexact sum, an overflow)
+EXPORT void vh_fpenv_raise_flags(void) { _mm_setcsr(_mm_getcsr() | 0x3Fu); }
+EXPORT void vh_fpenv_clear_flags(void) { _mm_setcsr(_mm_getcsr() & ~0x3Fu); }
 #else
 EXPORT uint32_t vh_fpenv_get(void) { return 0; }
 EXPORT void vh_fpenv_set_control(uint32_t v) { (void)v; }
+EXPORT void vh_fpenv_raise_flags(void) {}
+EXPORT void vh_fpenv_clear_flags(void) {}
 #endif
